@@ -1204,6 +1204,19 @@ class Proc:
         ST.run_faults[op['slug']] = [op['kind'], op.get('at')]
         return {'armed': True}
 
+    def op_wait(self, op):
+        """this simulated process stays alive, doing nothing, while another one runs from start to end"""
+        import time as _t
+        ST.active = False
+        base = Path(ST.root)
+        (base / f'at_wait_{op["k"]}').write_text('x')
+        deadline = _t.monotonic() + 45
+        while not (base / f'resume_{op["k"]}').exists():
+            if _t.monotonic() > deadline:
+                return {'harness_error': 'wait was never resumed'}
+            _t.sleep(0.0005)
+        return {'ok': True}
+
     def op_rev(self, op):
         ST.rev = dict(op['map'])
         return {'ok': True}
